@@ -361,8 +361,10 @@ class Translator:
         k = t[0]
         if k == "int":
             if t[1] in SIGNED:
-                raise Unsupported("signed integer type")
+                return "Int"
             return "Nat"
+        if k == "f32":
+            return "Int"
         if k == "bool":
             return "Bool"
         if k == "unit":
@@ -899,12 +901,19 @@ class FnTr:
         kind = e[0]
         if kind == "paren":
             return self.ev(e[1], env, ctx, k, expect, tailpos)
+        if kind == "num" and (("." in e[1] and not e[1].startswith("0x")) or e[2] in ("f32", "f64") or (expect == ("f32",) and e[2] is None)):
+            # `f32` values are exact multiples of 1/256 (`Int` scaled by 256); anything else is not representable in the model
+            from fractions import Fraction
+            q = Fraction(e[1].replace("_", "")) * 256
+            if q.denominator != 1:
+                raise Unsupported("float literal %s is not a multiple of 1/256" % e[1])
+            return k("(%d : Int)" % q.numerator, ("f32",))
         if kind == "num":
             text, suffix = e[1], e[2]
             v = parse_int(text)
             t = I(suffix) if suffix else (expect if expect and expect[0] == "int" else I("lit"))
             if t[0] == "int" and t[1] in SIGNED:
-                raise Unsupported("signed integer")
+                return k("(%d : Int)" % v, t)
             return k(str(v), t)
         if kind == "bool":
             return k("true" if e[1] else "false", BOOL)
@@ -1121,6 +1130,14 @@ class FnTr:
             if t == BOOL:
                 return "(%s %s %s)" % (a, {"&": "&&", "|": "||", "^": "!="}[op], b)
             return "(%s %s %s)" % (a, {"&": "&&&", "|": "|||", "^": "^^^"}[op], b)
+        if t == ("f32",):
+            if op in ("+", "-"):
+                return "(%s %s %s)" % (a, op, b)
+            if op == "*":
+                return ("Src.fmul %s %s" % (a, b),)
+            if op == "/":
+                return ("Src.fdiv %s %s" % (a, b),)
+            raise Unsupported("operator %s on f32" % op)
         if t[0] != "int":
             raise Unsupported("arithmetic on %s" % (t,))
         if t[1] in SIGNED:
@@ -1175,11 +1192,11 @@ class FnTr:
             def after_l(a, t):
                 def after_r(b, t2):
                     tt = t if t != I("lit") else t2
-                    if tt[0] not in ("int", "bool", "enum", "arr", "adt", "tup", "ordering", "opt", "char", "res"):
+                    if tt[0] not in ("int", "bool", "enum", "arr", "adt", "tup", "ordering", "opt", "char", "res", "f32"):
                         raise Unsupported("comparison of %s" % (tt,))
                     if tt[0] in ("arr", "adt", "tup", "opt") and op not in ("==", "!="):
                         raise Unsupported("ordering comparison of %s" % (tt,))
-                    if tt[0] == "int" and tt[1] in SIGNED:
+                    if tt[0] == "int" and tt[1] in SIGNED and t2[0] != "int":
                         raise Unsupported("signed comparison")
                     lop = {"==": "==", "!=": "!=", "<": "<", ">": ">", "<=": "≤", ">=": "≥"}[op]
                     if op in ("==", "!="):
@@ -1225,9 +1242,15 @@ class FnTr:
         tt = self.norm(ty)
 
         def after(a, t):
+            if tt == ("f32",) and t[0] == "int" and t[1] not in SIGNED:
+                return k("((%s : Int) * 256)" % a, tt)
             if tt[0] != "int":
                 raise Unsupported("cast to %s" % (tt,))
             if tt[1] in SIGNED:
+                if t == ("f32",):
+                    bits = {"i8": 8, "i16": 16, "i32": 32, "i64": 64}.get(tt[1])
+                    if bits:
+                        return k("(Src.f2i %d %s)" % (bits, a), tt)
                 raise Unsupported("cast to a signed type")
             w = INT_W[tt[1]]
             if t == BOOL:
@@ -1360,6 +1383,14 @@ class FnTr:
         seg_names = [s if isinstance(s, str) else s[0] for s in segs]
         if own in self.c.structs and name == own:
             return self.ctor(name, args, env, ctx, k)
+        if own == "f32" and name in ("max", "min") and len(args) == 2:
+            return self.args(args, [("f32",), ("f32",)], env, ctx, lambda a, t: k("(%s %s %s)" % ("max" if name == "max" else "min", a[0], a[1]), ("f32",)))
+        if own == "f32" and name == "from" and len(args) == 1:
+            def after_from(a, t):
+                if t[0] == "int" and t[1] in ("u8", "u16", "lit"):
+                    return k("((%s : Int) * 256)" % a, ("f32",))
+                raise Unsupported("f32::from(%s)" % (t,))
+            return self.ev(args[0], env, ctx, after_from)
         # core functions
         if seg_names[-2:] == ["cmp", "max"] or (own in INT_W and name == "max"):
             return self.args(args, None, env, ctx, lambda a, t: k("(Nat.max %s %s)" % (a[0], a[1]), t[0] if t[0] != I("lit") else t[1]))
@@ -1451,6 +1482,13 @@ class FnTr:
                     return self.ev(args[0], env, ctx, lambda b, t2: k2("(Nat.%s %s %s)" % (name, a, b), t), expect=t)
                 if name in ("clone", "to_owned") and not args:
                     return k2(a, t)
+            if t == ("f32",):
+                if name == "ceil" and not args:
+                    return k2("(Src.fceil %s)" % a, t)
+                if name == "floor" and not args:
+                    return k2("(Src.ffloor %s)" % a, t)
+                if name in ("max", "min") and len(args) == 1:
+                    return self.ev(args[0], env, ctx, lambda b, t2: k2("(%s %s %s)" % (name, a, b), t), expect=t)
             if t[0] == "arr":
                 if name == "contains" and len(args) == 1:
                     return self.ev(args[0], env, ctx, lambda b, t2: k2("(%s.contains %s)" % (a, b), BOOL), expect=t[1])
@@ -1776,6 +1814,18 @@ def allM {α : Type} : List α → (α → Option Bool) → Option Bool
 def matchRanges : List (Nat × Nat × Nat) → Nat → Nat → Nat
   | [], d, _ => d
   | (lo, hi, v) :: rest, d, x => if lo ≤ x ∧ x ≤ hi then v else matchRanges rest d x
+
+/-- `f32` values are modelled exactly as multiples of 1/256 (an `Int` scaled by 256).  Addition and subtraction are exact;
+    a product or quotient that is not again such a multiple is outside the model (`none`); so is division by zero.  Every
+    value of magnitude below 2^16 of this form is an `f32` and IEEE arithmetic is exact on exactly representable results. -/
+def fmul (a b : Int) : Option Int := if (a * b) % 256 = 0 then some (a * b / 256) else none
+def fdiv (a b : Int) : Option Int := if b ≠ 0 ∧ (a * 256) % b = 0 then some (a * 256 / b) else none
+def fceil (a : Int) : Int := (a + 255) / 256 * 256
+def ffloor (a : Int) : Int := a / 256 * 256
+/-- `as iN` from `f32`: truncation toward zero, saturating -/
+def f2i (bits : Nat) (a : Int) : Int :=
+  let t := Int.tdiv a 256
+  max (-(2 ^ (bits - 1) : Int)) (min t (2 ^ (bits - 1) - 1))
 
 /-- `Iterator::next` on a list-backed iterator -/
 def iterNext {α : Type} : List α → Option α × List α
